@@ -347,6 +347,39 @@ fn stop_kind(h: &History, c: u32) -> String {
 }
 
 /// C03 — queries and replies are relayed complete, in order and unmodified.
+/// C03, Flush: a batch that ends in Flush instead of Sync is a request too. PostgreSQL answers it
+/// at once (ParseComplete, BindComplete, rows, CommandComplete; no ReadyForQuery); the client
+/// reads for a while before it sends Sync. Whatever the client has not received by then was held
+/// back by the pooler.
+pub fn c03_flush(cx: &mut Ctx) {
+    let h = cx.h;
+    for c in h.clients.values() {
+        if !is_data_client(c) || c.auth_result != "ok" {
+            continue;
+        }
+        for (i, s) in c.steps.iter().enumerate() {
+            if s.op != "send" || s.tags.is_empty() || !s.sent.ends_with(&[b'H', 0, 0, 0, 4]) {
+                continue;
+            }
+            let hold = match c.steps.get(i + 1) {
+                Some(x) if x.op == "hold" => x,
+                _ => continue,
+            };
+            cx.probe("c03_flush_terminated_batch");
+            let got: String = hold.msgs.iter().map(|m| m.ty as char).collect();
+            if hold.msgs.iter().any(|m| m.ty == b'E') {
+                cx.probe("c03_flush_answered_with_error");
+                continue;
+            }
+            if !got.contains('C') && hold.outcome == StepOutcome::Done {
+                cx.v("C03", "flush_not_honoured", "C03/flush_not_honoured", hold.done_seq, format!("client {} step {}: a batch ending in Flush (Parse, Bind, Execute, Flush) got {:?} within {} ms of waiting; a server answers it at once up to CommandComplete", c.id, s.idx, got, (hold.done_us - hold.start_us) / 1000));
+            } else {
+                cx.probe("c03_flush_answered_before_sync");
+            }
+        }
+    }
+}
+
 pub fn c03_relay(cx: &mut Ctx) {
     relay_check(cx, "C03", false);
     result_attribution(cx, "C03");
